@@ -38,6 +38,9 @@ class C20(object):
             "and jittered on rows with supports of their own); the library's own generator in place of a supplied one, "
             "jittered(zeros=False), ball(n, size), replace_zeros on (k, n) pmfs with zero counts of their own (rand False and True); kind `proj`: projections() and downsample() on (n,) and (k, n) pmfs with "
             "zeros or already on the grid, ops omitted or given; simplex_grid with using = tuple / list / numpy.array / default; "
+            "using = callables that keep their argument (identity, numpy.asarray / asanyarray, a container, a recorder) and "
+            "distributions with inplace=False, the items read as they are yielded, one step behind the generator, or after "
+            "the generator is exhausted; "
             "non-trivial = dimension >= 3 and not the uniform composition")
     tolerances = {'transcendental functions vs the model in Float': 'rtol 1e-9 / atol 1e-11',
                   'slots / simplex_grid': 'exact (as sets of integer tuples, multiplicities included)',
@@ -264,6 +267,10 @@ class C20(object):
                                          '(%d values yielded, %d expected)' % (k, m, nm, len(objs), want))
                         break
                 r.features.append('using=tuple,list,array,default')
+            # the points are values: what has been yielded (or handed to `using`) stays what it was while the
+            # generator advances (only inplace=True is documented to reuse one object)
+            if not r.oracle_fail:
+                r.oracle_fail = self.grid_kept(dit, k, m, nums, want, r)
             # the in-place form, and two grids alive at the same time (all pairs of grid points)
             if not r.oracle_fail and want <= 40:
                 seq = [tuple(int(round(v * m)) for v in d.pmf) for d in dit.simplex_grid(k, m, inplace=True)]
@@ -479,6 +486,86 @@ class C20(object):
         return
 
     # ------------------------------------------------------------------
+    def grid_kept(self, dit, k, m, nums, want, r):
+        """simplex_grid(k, m, using=f) for callables f that keep what they are handed instead of copying it
+        (identity, numpy.asarray / asanyarray, a container around the argument, a recorder that stores the argument
+        and returns its position), read in three ways: every item as soon as it is yielded (`stream`), every item
+        after the next one has been yielded (`lagged`), all items after the generator is exhausted (`collect`).
+        In each of them the items read are the grid `nums` (sorted integer numerators from using=tuple, already
+        compared with the definition), each point exactly once.  The same for the distributions of the default form
+        and of using=<a distribution> with inplace=False, which are documented to be objects of their own.
+        Returns a message or None."""
+        def read(o):
+            v = [float(t) for t in np.ravel(np.asarray(o, dtype=float))]
+            if len(v) != k or any(abs(t * m - round(t * m)) > 1e-9 for t in v):
+                return ('not a grid point', tuple(v))
+            return tuple(int(round(t * m)) for t in v)
+
+        def judge(name, mode, seq):
+            bad = [p for p in seq if p and p[0] == 'not a grid point']
+            if bad:
+                return 'simplex_grid(%d,%d, using=%s), items read %s: %s is not a grid point' % (k, m, name, mode, bad[0][1])
+            if sorted(seq) != nums:
+                return ('simplex_grid(%d,%d, using=%s), items read %s, does not enumerate every grid point exactly once '
+                        '(%d items, %d distinct points, %d expected; first items %s)'
+                        % (k, m, name, mode, len(seq), len(set(seq)), want, seq[:3]))
+            return None
+
+        store = []
+
+        def recorder(p):
+            store.append(p)
+            return len(store) - 1
+
+        keepers = [('identity', lambda p: p, lambda o: o), ('numpy.asarray', np.asarray, lambda o: o),
+                   ('numpy.asanyarray', np.asanyarray, lambda o: o),
+                   ('a container holding the argument', lambda p: [p], lambda o: o[0]),
+                   ('a recorder of the arguments', recorder, lambda o: store[o])]
+        r.features.append('using=callables that keep their argument;read=stream,lagged,collect')
+        for name, fn, arg_of in keepers:
+            for mode in ('as they are yielded', 'one step behind the generator', 'after the generator is exhausted'):
+                del store[:]
+                seq, prev = [], None
+                g = dit.simplex_grid(k, m, using=fn)
+                if mode == 'after the generator is exhausted':
+                    seq = [read(arg_of(o)) for o in list(g)]
+                elif mode == 'as they are yielded':
+                    for o in g:
+                        seq.append(read(arg_of(o)))
+                else:
+                    for o in g:
+                        if prev is not None:
+                            seq.append(read(arg_of(prev[0])))
+                        prev = (o,)
+                    if prev is not None:
+                        seq.append(read(arg_of(prev[0])))
+                f = judge(name, mode, seq)
+                if f:
+                    return f
+        # distributions with inplace=False: objects of their own, to be stored and read later
+        tmpl = dit.random_scalar_distribution(k)
+        before = [float(v) for v in tmpl.pmf]
+        for name, kw in (('None', {}), ('a distribution', {'using': tmpl})):
+            for mode in ('one step behind the generator', 'after the generator is exhausted'):
+                seq, prev = [], None
+                g = dit.simplex_grid(k, m, inplace=False, **kw)
+                if mode == 'after the generator is exhausted':
+                    seq = [read(d.pmf) for d in list(g)]
+                else:
+                    for d in g:
+                        if prev is not None:
+                            seq.append(read(prev.pmf))
+                        prev = d
+                    seq.append(read(prev.pmf))
+                f = judge(name + ', inplace=False', mode, seq)
+                if f:
+                    return f
+        if [float(v) for v in tmpl.pmf] != before:
+            return ('simplex_grid(%d,%d, using=d, inplace=False) changed the pmf of d from %s to %s'
+                    % (k, m, before, [float(v) for v in tmpl.pmf]))
+        r.features.append('using=distribution,inplace=False;read=lagged,collect')
+        return None
+
     def replace_rows(self, case, drv, r, P, simplex_fail):
         """replace_zeros on a (k, n) argument whose rows have different numbers of zeros (none included), and on each
         row alone: every row normalised and positive, its zeros filled (with delta, or with values in (0, delta] when
